@@ -1,7 +1,7 @@
 #!/usr/bin/env python3
 """Run every hand-written mutant (mutants/) and every seeded change (seeded/*/patch.diff) through the quick
 check of its property on a scratch copy of /repo/gmlc; write evidence/mutations.json and print a table.
-usage: tools/regress.py [ids...]"""
+usage: tools/regress.py [ids...]   (with ids: re-run those and merge into the table)"""
 import glob, json, os, re, subprocess, sys, time
 ROOT = os.path.dirname(os.path.dirname(os.path.abspath(__file__)))
 jobs = []
@@ -45,6 +45,14 @@ for pid, name, path, base in jobs:
                program=pm.group(1)[:160] if pm else None, wall_s=round(time.time() - t0, 1))
     rows.append(row)
     print(f"{pid} {name:32s} {'DETECTED' if row['detected'] else 'MISSED  '} {row['first_key']} ({row['wall_s']}s)", flush=True)
+if want:
+    # partial re-run: merge into the existing table (rows of the re-run changes replaced, new ones appended)
+    path = os.path.join(ROOT, "evidence", "mutations.json")
+    old = json.load(open(path))
+    done = {r["change"] for r in rows}
+    merged = [r for r in old["results"] if r["change"] not in done] + rows
+    merged.sort(key=lambda r: (r["change"].split("/")[0], r["change"]))
+    json.dump(dict(note=old["note"], results=merged, not_rerun=skipped), open(path, "w"), indent=1)
 if not want:
     json.dump(dict(note="quick check of the property run on a scratch copy with the change applied", results=rows, not_rerun=skipped),
               open(os.path.join(ROOT, "evidence", "mutations.json"), "w"), indent=1)
